@@ -8,6 +8,7 @@ import RigModel.Gen.PyFun
 import Mathlib.Tactic.SplitIfs
 import RigModel.Lemmas.IntBits
 import RigModel.Lemmas.C10Dict
+import RigModel.Props.C10
 set_option linter.unusedSimpArgs false
 set_option linter.unusedVariables false
 set_option linter.unusedTactic false
@@ -173,6 +174,21 @@ theorem gen_step_core (key mask : Nat) (st : List Slot) (c : ChipXY) (outs : Lis
     simp only []
     split <;> rfl
 
+theorem sameSet_comm (a b : List Nat) : sameSet a b = sameSet b a := by
+  unfold sameSet; exact Bool.and_comm _ _
+
+/-- closes the two side goals of `gen_step_core` once the direction is known; independent of the order of the
+operands of the set comparison and of how the tests on `None` are written -/
+macro "gen_step_close" : tactic => `(tactic| (
+  apply gen_step_core
+  · intro s hs
+    have hcomm := sameSet_comm s.outs ‹List Nat›
+    cases hss : sameSet s.outs ‹List Nat› <;> rw [hss] at hcomm <;>
+      simp [hs, hss, ← hcomm]
+  · intro hn
+    simp [hn]
+    try rfl))
+
 theorem gen_step (key mask : Nat) (st : List Slot) (v : Visit) :
     routing_tree_to_tables_loop2 key mask (nestOf st) v.py = resPy nestOf (step key mask st v) := by
   obtain ⟨dir, ⟨x, y⟩, outs⟩ := v
@@ -182,29 +198,17 @@ theorem gen_step (key mask : Nat) (st : List Slot) (v : Visit) :
     pySetEq_eq, pySetAdd_eq, pyLift]
   cases dir with
   | none =>
-    simp only [inDir, bne_self_eq_false, Bool.false_eq_true, if_false]
-    apply gen_step_core
-    · intro s hs
-      simp only [hs, Option.map_some, Option.isSome_some, if_true]
-      cases sameSet s.outs outs <;> simp
-    · intro hn
-      simp only [hn, Option.map_none, Option.isSome_none, Bool.false_eq_true, if_false]
-      rfl
+    simp only [inDir, pyOptAttr, beq_iff_eq, bne_iff_ne, ne_eq, reduceCtorEq, not_true_eq_false, not_false_eq_true,
+      if_true, if_false, Bool.false_eq_true, bne_self_eq_false, beq_self_eq_true]
+    gen_step_close
   | some r =>
-    simp only [inDir, pyOptAttr, natProp_opposite]
+    simp only [inDir, pyOptAttr, natProp_opposite, beq_iff_eq, bne_iff_ne, ne_eq, reduceCtorEq, not_true_eq_false,
+      not_false_eq_true, if_true, if_false, Bool.false_eq_true]
     by_cases hr : r < 6
     · simp only [hr, if_true]
-      have : (some r != none) = true := rfl
-      simp only [this, if_true]
-      apply gen_step_core
-      · intro s hs
-        simp only [hs, Option.map_some, Option.isSome_some, if_true]
-        cases sameSet s.outs outs <;> simp
-      · intro hn
-        simp only [hn, Option.map_none, Option.isSome_none, Bool.false_eq_true, if_false]
-        rfl
+      gen_step_close
     · simp only [hr, if_false]
-      rfl
+      try rfl
 
 theorem gen_stepAll (key mask : Nat) : ∀ (vs : List Visit) (st : List Slot),
     List.foldlM (routing_tree_to_tables_loop2 key mask) (nestOf st) (vs.map Visit.py)
@@ -340,6 +344,59 @@ theorem gen_tree_tables (L : List (Nat × Net)) (net_keys : List (Nat × (Nat ×
   cases processNets [] (L.map (·.2)) with
   | error e => rfl
   | ok st => simp only [resPy, gen_tables_of]
+
+
+/-- nothing is lost in the comparison: the model's outcome can be read back from the Python outcome -/
+theorem errPy_injective : Function.Injective errPy := by
+  intro a b h
+  cases a <;> cases b <;> simp [errPy] at h ⊢
+  obtain ⟨h1, h2, h3, h4⟩ := h
+  exact ⟨h1, h2, Prod.ext h3 h4⟩
+
+theorem map_injective' {α β : Type} (f : α → β) (hf : Function.Injective f) : Function.Injective (List.map f) := by
+  intro a
+  induction a with
+  | nil => intro b h; cases b <;> simp_all
+  | cons x xs ih =>
+    intro b h
+    cases b with
+    | nil => simp at h
+    | cons y ys =>
+      simp only [List.map_cons, List.cons.injEq] at h
+      rw [hf h.1, ih h.2]
+
+theorem tablesPy_injective : Function.Injective tablesPy := by
+  unfold tablesPy
+  apply map_injective'
+  rintro ⟨c1, es1⟩ ⟨c2, es2⟩ h
+  simp only [Prod.mk.injEq] at h ⊢
+  refine ⟨h.1, map_injective' _ ?_ h.2⟩
+  rintro ⟨r1, k1, m1, s1⟩ ⟨r2, k2, m2, s2⟩ he
+  simp only [Entry.py, Prod.mk.injEq] at he
+  simp [he.1, he.2.1, he.2.2.1, he.2.2.2]
+
+theorem resPy_injective {α β : Type} (f : α → β) (hf : Function.Injective f) : Function.Injective (resPy f) := by
+  intro a b h
+  cases a <;> cases b <;> simp only [resPy, Except.ok.injEq, Except.error.injEq, reduceCtorEq] at h
+  · exact congrArg _ (errPy_injective h)
+  · exact congrArg _ (hf h)
+
+/-- **The first clause of C10, about the code as written**: what the generated `routing_tree_to_tables` returns
+or raises is the Python form of a result that satisfies `TablesSpec` (tables exact and no conflict, or the
+multi-source error at a real conflict - `tables_exact`, `multisource_iff`), and that result is unique. -/
+theorem gen_tables_spec (L : List (Nat × Net)) (net_keys : List (Nat × (Nat × Nat)))
+    (hk : ∀ p ∈ L, net_keys.lookup p.1 = some (p.2.key, p.2.mask)) (hwf : ∀ p ∈ L, p.2.tree.WF) :
+    ∃ r, routing_tree_to_tables (L.map (fun p => (p.1, travPy p.2))) net_keys = resPy tablesPy r ∧
+      TablesSpec (L.map (·.2)) r ∧
+      ∀ r', routing_tree_to_tables (L.map (fun p => (p.1, travPy p.2))) net_keys = resPy tablesPy r' → r' = r := by
+  refine ⟨treeTables (L.map (·.2)), gen_tree_tables L net_keys hk hwf, ?_, ?_⟩
+  · apply tables_spec
+    intro n hn
+    obtain ⟨p, hp, rfl⟩ := List.mem_map.1 hn
+    exact hwf p hp
+  · intro r' h
+    rw [gen_tree_tables L net_keys hk hwf] at h
+    exact (resPy_injective tablesPy tablesPy_injective h).symm
 
 
 /-- the hypotheses are satisfiable on a non-trivial instance (two nets sharing a key on a two-chip tree), and
